@@ -124,7 +124,7 @@ let target_states = nfa.get_match_transitions(__ci);
 let ghost ts = target_states@;
 proof {
     lemma_mt_fires(n, ss, epsilon_closure@, reps[c].0 as int);
-    assert forall|cc: CharClassID, t: StateID| #[trigger] ts.contains((cc, t)) <==> fires(g, reps[c].0 as int, cc, t) by {
+    assert forall|cc: CharClassID, t: StateID| #[trigger] ts.contains((cc, t)) <==> g_fires(g, reps[c].0 as int, cc, t) by {
         assert(ts.contains((cc, t)) <==> mt_from(n, ss, cc, t));
     }
 }
@@ -134,7 +134,7 @@ invariant
     __it1.obeys_prophetic_iter_laws(), __it1.decrease() is Some,
     __it1.remaining().len() <= ts.len(),
     forall|q: int| 0 <= q < __it1.remaining().len() ==> #[trigger] __it1.remaining()[q] == ts[ts.len() - __it1.remaining().len() + q],
-    forall|cc: CharClassID, t: StateID| #[trigger] ts.contains((cc, t)) <==> fires(g, reps[c].0 as int, cc, t),
+    forall|cc: CharClassID, t: StateID| #[trigger] ts.contains((cc, t)) <==> g_fires(g, reps[c].0 as int, cc, t),
     old_state_id.0 == c, 0 <= c < reps.len(), c == p, reps.len() >= reps_head.len(), queue@.len() == reps.len() - c - 1,
 ''' + INV + '''
     queue_ok(queue@, c + 1, reps.len() as int),
@@ -152,7 +152,7 @@ let ghost acc_in = accepting_states@;
 proof {
     assert((cc, target_state) == ts[m0]);
     assert(ts.contains(ts[m0]));
-    assert(fires(g, reps[c].0 as int, cc, target_state));
+    assert(g_fires(g, reps[c].0 as int, cc, target_state));
     lemma_fires_target(g, reps[c].0 as int, cc, target_state);
 }
 '''),
@@ -185,7 +185,7 @@ proof { assert(key_is(g, epsilon_closure@, target_state.0 as int)); }
                 assert forall|kk: int| 0 <= kk < m0 implies edge_present(g, transitions@, reps.push(target_state), c, (#[trigger] ts[kk]).0, ts[kk].1) by {
                     assert(edge_present(g, transitions@, reps, c, ts[kk].0, ts[kk].1));
                 }
-                assert forall|cc: CharClassID, t: StateID| #[trigger] ts.contains((cc, t)) <==> fires(g, reps.push(target_state)[c].0 as int, cc, t) by {
+                assert forall|cc: CharClassID, t: StateID| #[trigger] ts.contains((cc, t)) <==> g_fires(g, reps.push(target_state)[c].0 as int, cc, t) by {
                     assert(reps.push(target_state)[c] == reps[c]);
                 }
                 reps = reps.push(target_state);
@@ -434,7 +434,7 @@ let target_states = mp_nfa.get_match_transitions(__ci);
 let ghost ts = target_states@;
 proof {
     lemma_mp_mt_fires(m, ss, epsilon_closure@, reps[c].0 as int);
-    assert forall|cc: CharClassID, t: StateID| #[trigger] ts.contains((cc, t)) <==> fires(g, reps[c].0 as int, cc, t) by {
+    assert forall|cc: CharClassID, t: StateID| #[trigger] ts.contains((cc, t)) <==> g_fires(g, reps[c].0 as int, cc, t) by {
         assert(ts.contains((cc, t)) <==> mp_mt_from(m, ss, cc, t));
     }
 }
@@ -459,7 +459,7 @@ proof {
     assert(mp_ok(m, target_state.0 as int));
     assert(target_state.0 != 0) by {
         // a target is a state of some pattern NFA, and those start at 1
-        reveal(fires);
+        reveal(g_fires);
         let s = choose|s: int| (g.reach)(reps[c].0 as int, s) && #[trigger] (g.tr)(s, cc, target_state);
         lemma_mp_target_nonzero(m, s, cc, target_state);
     }
